@@ -1,7 +1,8 @@
 // Driver of property C05: an integration with filter references never runs
 // ahead of what it references.  Dependency graphs are produced by
 // config.ValidateFix from filter_ref declarations (on event inputs and on a
-// block field); 1-2 referenced integrations, 1-2 dependents; all relative
+// block field); 1-3 referenced integrations, 1-3 dependents (several dependents
+// whose references differ, in any file order); all relative
 // speeds: referenced integrations stalled, far ahead, not started at all;
 // whole steps and statement-level interleavings.  Oracles: at every position
 // a dependent records, every referenced integration had a committed position
@@ -13,6 +14,7 @@ package main
 
 import (
 	"fmt"
+	"sort"
 
 	"verif/harness/lib"
 	ts "verif/harness/tasksim"
@@ -76,6 +78,74 @@ func mkGraph(r *lib.RNG, twoRefs, twoDeps, blockField, twoSrc bool, rstart, dsta
 	return g
 }
 
+// taskIDs: task ids follow the integration name order (one source per integration here).
+func taskIDs(igs []ts.IGSpec) map[string]int {
+	var names []string
+	for _, ig := range igs {
+		names = append(names, ig.Name)
+	}
+	sort.Strings(names)
+	ids := map[string]int{}
+	for i, n := range names {
+		ids[n] = i + 1
+	}
+	return ids
+}
+
+// finishGraph fills deps / refs / nTasks / token from the integrations (single source).
+func finishGraph(igs []ts.IGSpec) graph {
+	g := graph{igs: igs, nTasks: len(igs)}
+	ids := taskIDs(igs)
+	for _, ig := range igs {
+		if len(ig.DeclaredRefs()) > 0 {
+			g.deps = append(g.deps, ids[ig.Name])
+		} else {
+			g.refs = append(g.refs, ids[ig.Name])
+		}
+		if ig.Shape == "depbd" || ig.RefBD != "" {
+			g.token = true
+		}
+	}
+	sort.Ints(g.deps)
+	sort.Ints(g.refs)
+	return g
+}
+
+// mkGraphMulti: 2-3 referenced integrations and 2-3 dependents whose references DIFFER
+// (consecutive dependents never share their first reference); references on input "from",
+// on input "to" and on block field log_addr; one dependent may have two different
+// references; the integrations appear in the configuration file in a random order
+// (dependents before and after what they reference), the names give another (task id) order.
+func mkGraphMulti(r *lib.RNG, rstart, dstart uint64) graph {
+	src := func(start uint64) []ts.SrcRef { return []ts.SrcRef{{Name: "main", Start: start}} }
+	refNames := []string{"r-one", "r-two", "r-three"}[:r.Range(2, 3)]
+	depNames := []string{"a-dep", "b-dep", "s-dep"}[:r.Range(2, 3)]
+	var igs []ts.IGSpec
+	for i, n := range refNames {
+		igs = append(igs, ts.IGSpec{Name: n, Shape: "created", Table: fmt.Sprintf("r%d", i+1), Hdr: r.Bool(), Sources: src(rstart)})
+	}
+	off := r.Intn(len(refNames))
+	for i, n := range depNames {
+		first := refNames[(off+i)%len(refNames)]
+		other := refNames[(off+i+1+r.Intn(len(refNames)-1))%len(refNames)] // never equal to first
+		d := ts.IGSpec{Name: n, Shape: "dep", Table: fmt.Sprintf("d%d", i+1), Ref: first, RefLo: rstart, Hdr: r.Bool(), Sources: src(dstart)}
+		switch k := r.Intn(6); {
+		case k == 0 && rstart <= 1:
+			d.Shape = "depbd" // the only reference sits on the block field
+		case k == 1:
+			d.Ref2 = other
+		case k == 2 && rstart <= 1:
+			d.RefBD = other
+		}
+		igs = append(igs, d)
+	}
+	for i := len(igs) - 1; i > 0; i-- { // file order
+		j := r.Intn(i + 1)
+		igs[i], igs[j] = igs[j], igs[i]
+	}
+	return finishGraph(igs)
+}
+
 // orphanSeed: a chain seed for which the replacement fork has a transfer whose sender was
 // created on that fork (found by search; any such seed shows the limit)
 const orphanSeed = 2
@@ -84,7 +154,12 @@ const orphanSeed = 2
 func run0(r *ts.Run) []string { return r.W.ConfigAnomalies }
 
 func run(cfg lib.Cfg) error {
-	out := lib.NewOut("C05", cfg.Out, ts.Header(5), "run", 3)
+	// one case per file in the quick tier: the evaluation time of a shard is that of its largest case
+	shard := 1
+	if cfg.Thorough() {
+		shard = 3
+	}
+	out := lib.NewOut("C05", cfg.Out, ts.Header(5), "run", shard)
 	out.Rule = "non-trivial = a dependent recorded at least two positions, made at least one successful and one unsuccessful reference lookup, and at least once had to wait for a referenced integration"
 	reorgMode := false // reorg histories: the table is compared with the final chain at quiescence only
 	judge := func(sc *ts.Scenario, kind string, quiescent bool, neverStarted []int) {
@@ -203,6 +278,76 @@ func run(cfg lib.Cfg) error {
 				sc.Acts = append(sc.Acts, ts.Act{Do: "step", Tid: 3}, ts.Act{Do: "step", Tid: 2}, ts.Act{Do: "step", Tid: 1})
 			}
 			judge(sc, "corpus-references-share-table", true, nil)
+		}
+		// SEVERAL dependents whose references DIFFER (each integration's Dependencies must be
+		// its own: nothing computed while validating one integration may leak into another).
+		// "behind" is the integration the first dependent of the file really references,
+		// "ahead" the one only the OTHER dependent references; ahead runs to the head first,
+		// behind records one batch (even variants) or nothing at all (odd variants): the first
+		// dependent must stop at behind's position / do nothing.  Variants: input reference
+		// then block-field reference with referents before their dependents (0, 1); dependents
+		// before their referents (2, 3); the first dependent with two different references (4, 5);
+		// the second one with two (6, 7); two input references (8, 9).
+		src := func(start uint64) []ts.SrcRef { return []ts.SrcRef{{Name: "main", Start: start}} }
+		created := func(name, tbl string) ts.IGSpec {
+			return ts.IGSpec{Name: name, Shape: "created", Table: tbl, Sources: src(1)}
+		}
+		dep := func(name, shape, tbl, ref string) ts.IGSpec {
+			return ts.IGSpec{Name: name, Shape: shape, Table: tbl, Ref: ref, RefLo: 1, Hdr: true, Sources: src(1)}
+		}
+		for v := 0; v < 10; v++ {
+			var igs []ts.IGSpec
+			behind, ahead := []string{"a-ref"}, []string{"c-ref"}
+			switch v / 2 {
+			case 0:
+				igs = []ts.IGSpec{created("a-ref", "ra"), dep("b-dep", "dep", "db", "a-ref"), created("c-ref", "rc"), dep("d-dep", "depbd", "dd", "c-ref")}
+			case 1:
+				igs = []ts.IGSpec{dep("b-dep", "depbd", "db", "a-ref"), dep("d-dep", "dep", "dd", "c-ref"), created("c-ref", "rc"), created("a-ref", "ra")}
+			case 2:
+				b := dep("b-dep", "dep", "db", "a-ref")
+				b.Ref2 = "a2-ref"
+				igs = []ts.IGSpec{created("a-ref", "ra"), created("a2-ref", "ra2"), b, created("c-ref", "rc"), dep("d-dep", "depbd", "dd", "c-ref")}
+				ahead = []string{"c-ref", "a2-ref"}
+			case 3:
+				d := dep("d-dep", "dep", "dd", "c-ref")
+				d.RefBD = "c2-ref"
+				igs = []ts.IGSpec{created("a-ref", "ra"), dep("b-dep", "dep", "db", "a-ref"), created("c-ref", "rc"), created("c2-ref", "rc2"), d}
+				ahead = []string{"c-ref", "c2-ref"}
+			case 4:
+				igs = []ts.IGSpec{created("c-ref", "rc"), dep("b-dep", "dep", "db", "a-ref"), dep("d-dep", "dep", "dd", "c-ref"), created("a-ref", "ra")}
+			}
+			g := finishGraph(igs)
+			ids := taskIDs(igs)
+			sc := mk(fmt.Sprintf("corpus-dependents-reference-different-integrations-%d", v), g, 8, 2, 1, uint64(70+v))
+			for i := 0; i < 3; i++ {
+				for _, a := range ahead {
+					sc.Acts = append(sc.Acts, ts.Act{Do: "step", Tid: ids[a]})
+				}
+			}
+			if v%2 == 0 {
+				sc.Acts = append(sc.Acts, ts.Act{Do: "step", Tid: ids[behind[0]]})
+			}
+			for i := 0; i < 2; i++ {
+				sc.Acts = append(sc.Acts, ts.Act{Do: "step", Tid: ids["b-dep"]}, ts.Act{Do: "step", Tid: ids["d-dep"]})
+			}
+			// then everybody reaches the head, dependents first in every round
+			for i := 0; i < 6; i++ {
+				for _, t := range g.deps {
+					sc.Acts = append(sc.Acts, ts.Act{Do: "step", Tid: t})
+				}
+				for _, t := range g.refs {
+					sc.Acts = append(sc.Acts, ts.Act{Do: "step", Tid: t})
+				}
+			}
+			judge(sc, "corpus-dependents-reference-different-integrations", true, nil)
+		}
+		// the smallest history of this kind: a-ref never runs, c-ref records two batches,
+		// each dependent takes one step: b-dep must do nothing, d-dep may follow c-ref
+		{
+			igs := []ts.IGSpec{created("a-ref", "ra"), dep("b-dep", "dep", "db", "a-ref"), created("c-ref", "rc"), dep("d-dep", "depbd", "dd", "c-ref")}
+			sc := mk("corpus-dependents-reference-different-integrations-smallest", finishGraph(igs), 4, 2, 1, 80)
+			sc.Acts = []ts.Act{{Do: "step", Tid: 3}, {Do: "step", Tid: 3}, {Do: "step", Tid: 2}, {Do: "step", Tid: 4}}
+			judge(sc, "corpus-dependents-reference-different-integrations", false, nil)
 		}
 	}
 	// reorg histories with statement-level interleaving: a dependent detects a reorg in its
@@ -383,7 +528,15 @@ func run(cfg lib.Cfg) error {
 			twoDeps, blockField = false, false
 		}
 		g := mkGraph(r, twoRefs, twoDeps, blockField, twoSrc, rstart, dstart)
+		multi := i%3 == 1 // a third of the graphs: several dependents with DIFFERENT references
+		if multi {
+			g = mkGraphMulti(r, rstart, dstart)
+			twoRefs, twoSrc = true, false
+		}
 		head := r.Range(5, 12)
+		if multi {
+			head = r.Range(5, 9) // 4-6 tasks: keep the histories short
+		}
 		sc := mk(fmt.Sprintf("deps-%d", i), g, head, r.Range(1, 4), r.Range(1, 3), r.U64()%1_000_000)
 		mode := r.Intn(4)
 		kind := "whole-steps"
@@ -404,6 +557,9 @@ func run(cfg lib.Cfg) error {
 		}
 		if twoSrc {
 			kind += "-two-sources"
+		}
+		if multi {
+			kind += "-different-references"
 		}
 		pick := func(phase int) int {
 			tot := 0
@@ -451,7 +607,10 @@ func run(cfg lib.Cfg) error {
 		if !never {
 			// everyone runs to quiescence: referenced first is NOT enforced, round robin
 			// a dependent reads the dependency position before its reference moves in the same round
-			for k := 0; k < 2*((head+sc.Srcs[0].Batch-1)/sc.Srcs[0].Batch+2); k++ {
+			// (the references reach the head after ceil(head/batch) rounds, a dependent one round
+			// later; two more rounds of margin.  Twice as many were run before round f: most of
+			// a case's text was made of nothing-new steps and their snapshots)
+			for k := 0; k < (head+sc.Srcs[0].Batch-1)/sc.Srcs[0].Batch+3; k++ {
 				for t := 1; t <= g.nTasks; t++ {
 					sc.Acts = append(sc.Acts, ts.Act{Do: "step", Tid: t})
 				}
